@@ -36,7 +36,7 @@ def root_var(e):
     e = strip(e)
     while isinstance(e, dict):
         if e['k'] in ('VarRef', 'UpvarRef'): return e['var']
-        if e['k'] == 'Call' and (callee_decl(e) in ('std::clone::Clone::clone', 'std::convert::AsRef::as_ref', 'std::ops::Deref::deref')) and e['args']:
+        if e['k'] == 'Call' and (callee_decl(e) in ('std::clone::Clone::clone', 'std::convert::AsRef::as_ref', 'std::ops::Deref::deref', 'std::ops::DerefMut::deref_mut', 'std::borrow::ToOwned::to_owned') or callee_name(e) in ('std::slice::<impl [T]>::to_vec',)) and e['args']:
             e = strip(e['args'][0]); continue
         return None
     return None
